@@ -710,4 +710,70 @@ theorem run_enable_phase (stop : Bool) (hooks : List Hook) :
         intro e; apply hnot; exact List.mem_map.mpr ⟨x, hx, e⟩
       rw [hf1 x.name this]
 
+/-! ## The whole start -/
+
+theorem findHook_of_mem : (hooks : List Hook) → (hooks.map (·.name)).Nodup → ∀ h ∈ hooks, findHook hooks h.name = h
+  | [], _, h, hm => by simp at hm
+  | a :: l, hnd, h, hm => by
+    unfold findHook
+    rcases List.mem_cons.mp hm with rfl | hm
+    · simp [List.find?]
+    · have hne : a.name ≠ h.name := by
+        intro e
+        have : a.name ∈ l.map (·.name) := e ▸ List.mem_map.mpr ⟨h, hm, rfl⟩
+        exact (List.nodup_cons.mp hnd).1 this
+      have ih := findHook_of_mem l (List.nodup_cons.mp hnd).2 h hm
+      unfold findHook at ih
+      have hb : (a.name == h.name) = false := by simp [hne]
+      simp only [List.find?, hb]
+      exact ih
+
+theorem nodup_of_pairwise_lt (hooks : List Hook) (h : hooks.Pairwise (fun a b => a.name < b.name)) :
+    (hooks.map (·.name)).Nodup := by
+  rw [List.Nodup, List.pairwise_map]
+  exact h.imp (fun hab => Nat.ne_of_lt hab)
+
+theorem getHooksInOrder_perm (hooks : List Hook) :
+    (getHooksInOrder hooks).Perm (hooks.filter (·.onStartup.isSome)) := stableSortByOrder_perm _
+
+theorem getHooksInOrder_sorted (hooks : List Hook) (h : hooks.Pairwise (fun a b => a.name < b.name)) :
+    (getHooksInOrder hooks).Pairwise KeyLt :=
+  stableSortByOrder_sorted _ (h.sublist List.filter_sublist)
+
+theorem getHooksInOrder_nodup (hooks : List Hook) (h : hooks.Pairwise (fun a b => a.name < b.name)) :
+    ((getHooksInOrder hooks).map (·.name)).Nodup := by
+  have hp := (getHooksInOrder_perm hooks).map (·.name)
+  rw [hp.nodup_iff]
+  exact (nodup_of_pairwise_lt hooks h).sublist (List.filter_sublist.map _)
+
+/-- the log of the onStartup phase -/
+def startupLog (hooks : List Hook) (fails : Nat → List Bool) : List Ev :=
+  (getHooksInOrder hooks).flatMap (fun h => retryLog (startupTask h) (fails h.name))
+
+/-- after finitely many worker iterations exactly the onStartup executions have happened and the main
+queue holds exactly the enable tasks -/
+theorem run_reaches_enable (stop : Bool) (hooks : List Hook) (hs : hooks.Pairwise (fun a b => a.name < b.name))
+    (fails : Nat → List Bool) :
+    ∃ n fails₁, runFuel stop hooks n (initSt hooks fails) =
+      { queue := enableQueue hooks, fails := fails₁, log := startupLog hooks fails } := by
+  obtain ⟨n, fails₁, hn, _⟩ := run_startup_phase stop hooks (enableQueue hooks) (enableQueue_head hooks)
+    (getHooksInOrder hooks) (getHooksInOrder_nodup hooks hs) fails []
+  exact ⟨n, fails₁, by simpa [initSt, bootstrap, startupLog] using hn⟩
+
+/-- the whole start: onStartup phase, then the hooks are enabled one after the other in list order -/
+theorem run_total (stop : Bool) (hooks : List Hook) (hs : hooks.Pairwise (fun a b => a.name < b.name))
+    (fails : Nat → List Bool) :
+    ∃ (n : Nat) (fails₁ fails₂ : Nat → List Bool), ∀ m, n ≤ m → runFuel stop hooks m (initSt hooks fails) =
+      { queue := [], fails := fails₂,
+        log := startupLog hooks fails ++ hooks.flatMap (fun h => hookPlan stop h (fails₁ h.name)) } := by
+  obtain ⟨n1, fails₁, h1⟩ := run_reaches_enable stop hooks hs fails
+  have hnd := nodup_of_pairwise_lt hooks hs
+  obtain ⟨n2, fails₂, h2⟩ := run_enable_phase stop hooks hooks (findHook_of_mem hooks hnd) hnd fails₁
+    (startupLog hooks fails)
+  refine ⟨n1 + n2, fails₁, fails₂, ?_⟩
+  intro m hm
+  obtain ⟨d, rfl⟩ := Nat.exists_eq_add_of_le hm
+  rw [runFuel_add, runFuel_add, h1, h2]
+  exact runFuel_nil stop hooks d _ rfl
+
 end ShellOp.Startup
